@@ -8,6 +8,7 @@ import OdeVerif.Generated.Constants
 import OdeVerif.Model.Stiffness
 import OdeVerif.Model.Spikes
 import OdeVerif.Model.AnalyticIntegrator
+import OdeVerif.Model.Graph
 
 open Lean
 
@@ -220,6 +221,29 @@ def opAiRun (j : Json) : Except String Json := do
     ("spikes", Json.arr (spikes.map (fun (t, syms) => Json.arr #[Json.str (toString t.bits.toNat), Json.arr (syms.map Json.str).toArray])).toArray),
     ("outs", Json.arr (outs.map (fun o => match o with | none => Json.null | some s => Json.str s)).toArray)])
 
+/-! ### C03 / C04 graph -/
+
+def getBoolMat (j : Json) (k : String) : Except String (Nat → Nat → Bool) := do
+  let rows ← j.getObjValAs? (Array (Array Bool)) k
+  pure (fun i c => ((rows[i]?).getD #[])[c]?.getD false)
+
+def getBoolVec (j : Json) (k : String) : Except String (Nat → Bool) := do
+  let v ← j.getObjValAs? (Array Bool) k
+  pure (fun i => v[i]?.getD false)
+
+def opVerdict (j : Json) : Except String Json := do
+  let s : Graph.Sys := { n := (← getNat j "n"), anz := (← getBoolMat j "anz"), cdep := (← getBoolMat j "cdep"),
+                         bnz := (← getBoolVec j "bnz"), shapeLin := (← getBoolVec j "shape_lin") }
+  let idx := List.range s.n
+  let bools (f : Nat → Bool) : Json := Json.arr (idx.map (fun i => Json.bool (f i))).toArray
+  let nats (l : List Nat) : Json := Json.arr (l.map (fun (i : Nat) => Json.num (JsonNumber.fromNat i))).toArray
+  let base := [("eligible", bools (Graph.eligible s)), ("scc", nats (idx.map (Graph.sccSize s))),
+               ("demote1", bools (Graph.demote1 s)), ("demote2", bools (Graph.demote2 s))]
+  match Graph.verdict s with
+  | none => pure (Json.mkObj (base ++ [("out_of_fuel", Json.bool true)]))
+  | some v => pure (Json.mkObj (base ++ [("verdict", bools v), ("analytic", nats (Graph.analyticIdx s.n v)),
+                                          ("numeric", nats (Graph.numericIdx s.n v))]))
+
 def dispatch (op : String) (j : Json) : Json :=
   match op with
   | "ping" => Json.mkObj [("pong", j)]
@@ -232,6 +256,7 @@ def dispatch (op : String) (j : Json) : Json :=
   | "list-stim" => run (opListStim j)
   | "from-json" => run (opFromJson j)
   | "ai-run" => run (opAiRun j)
+  | "verdict" => run (opVerdict j)
   | _ => jerr ("unknown-op: " ++ op)
 
 end OdeVerif.Driver
